@@ -146,7 +146,12 @@ fn file_roundtrip<T: Ty>(rng: &mut Rng, rep: &mut Report) {
     rep.count("file_roundtrips", 1);
     rep.count("bytes_moved", (n * T::size()) as u64);
     rep.set("types", T::NAME);
-    // sink
+    // sink; half of the time the path already holds older, possibly longer content
+    if rng.chance(1, 2) {
+        let junk = gen_bytes(rng, rng.clone().range(0, 2 * cap * std::mem::size_of::<T>()));
+        std::fs::write(&path, junk).ok();
+        rep.count("file_roundtrips_over_existing_file", 1);
+    }
     rec::stream_size(stream);
     let (inp, r) = CopyIn::new(data.clone());
     let sink = match FileSink::new(r, &path, Mode::Overwrite) {
